@@ -177,6 +177,15 @@ def attribute(d, info, uni):
         desc['primary'] = {'woven': '%s:%d' % (s['file_name'], s['line_start']),
                            'where': ('%s:%d' % (loc['file'], loc['line'])) if loc['kind'] == 'src' else ('contract ' + loc['sidecar']),
                            'fn': loc['fn'], 'code': (s.get('text') or [{}])[0].get('text', '').strip()}
+    if not cands:
+        # an untagged (auxiliary) clause of a contract block: the function's general obligation
+        for sp in spans:
+            loc = locate(info, os.path.basename(sp['file_name']), sp['line_start'], sp.get('column_start'))
+            if loc and loc['kind'] == 'ins' and not loc['tag'] and loc['block']['directive'] in ('fn', 'loop'):
+                key = (loc['file'], last_seg(split_args(loc['block']['args'])[0]))
+                if key in uni.fn_nopanic:
+                    desc['clause'] = {'sidecar': loc['sidecar'], 'text': loc['text']}
+                    return uni.fn_nopanic[key], desc
     if cands:
         cands.sort(key=lambda c: c[0])
         loc = cands[0][1]
@@ -310,6 +319,47 @@ def run_verus(woven_dir, tier, log_dir):
     return vr
 
 
+def canary_pass(scratch, uni0):
+    """Vacuity guard (thorough tier): weave a second copy with `assert(false)` at the start of every function
+    under contract and of every loop that carries an invariant.  Each of these assertions MUST be reported as
+    failing; one that verifies means a contradictory precondition / invariant (or unreachable code), i.e. the
+    obligations proved under it are vacuous.  Returns (number of canaries, list of canaries that did NOT fail)."""
+    extra = {}
+    n = 0
+    info0 = uni0.info
+    for fname, blocks in info0['blocks'].items():
+        for b in blocks:
+            if b['directive'] == 'fn':
+                fnpath = split_args(b['args'])[0]
+                if uni0.fn_external.get((fname, fnpath)):
+                    continue
+                if not any('verus_spec' in l for l in b['lines']):
+                    continue
+                extra.setdefault(fname, []).append(('body-start', fnpath, ['        proof! { assert(false); } // CANARY fn %s' % fnpath]))
+                n += 1
+            elif b['directive'] == 'loop':
+                fnpath, spec = split_args(b['args'])
+                extra.setdefault(fname, []).append(('loop-body', '%s %s' % (fnpath, spec), ['            proof! { assert(false); } // CANARY loop %s %s' % (fnpath, spec)]))
+                n += 1
+    cdir = os.path.join(scratch, 'canary')
+    weave.weave_all(os.path.join(REPO, 'src'), os.path.join(VERIF, 'contracts'), os.path.join(VERIF, 'spec'), cdir, extra_blocks=extra)
+    cmd, rc, out, diags, other = _verus(cdir, ['--multiple-errors', '6', '--rlimit', '30', '--num-threads', '16'])
+    failed_lines = set()
+    for d in diags:
+        if d.get('level') == 'error' and d['message'].startswith('assertion failed'):
+            for sp in d['spans']:
+                if sp.get('is_primary'):
+                    failed_lines.add((os.path.basename(sp['file_name']), sp['line_start']))
+    missing = []
+    for f in sorted(os.listdir(cdir)):
+        if not f.endswith('.rs'):
+            continue
+        for i, l in enumerate(open(os.path.join(cdir, f)).read().split('\n'), 1):
+            if '// CANARY ' in l and (f, i) not in failed_lines:
+                missing.append('%s: %s' % (f, l.split('// CANARY ')[1]))
+    return n, missing
+
+
 def analyse(info, uni, vr):
     """-> dict(failed={oid: [desc]}, inconclusive=[...], fn_results={fn: {...}}, compile_error=bool)"""
     res = {'failed': {}, 'inconclusive': [], 'fn_results': {}, 'compile_error': False, 'unattributed': []}
@@ -430,8 +480,52 @@ def main():
         uni = Universe(info)
         vr = run_verus(woven, tier, scratch)
         ana = analyse(info, uni, vr)
+        # generic closure rule: a helper item (const / fn) that verified code uses but that no sidecar mentions is
+        # brought under Verus with an empty contract (body checked, nothing promised) and the run is repeated
+        auto_items = {}
+        for _round in range(4):
+            if not ana['compile_error']:
+                break
+            new_items = False
+            for d in vr['diags']:
+                m = re.search(r'cannot use (function|type|constant) `lib::(\w+)::([\w:]+)` which is ignored', d.get('message', ''))
+                if not m:
+                    continue
+                mod, path = m.group(2), m.group(3)
+                fname = mod + '.rs'
+                if fname not in info['files'] or (fname, path) in auto_items:
+                    continue
+                txt = open(os.path.join(REPO, 'src', fname)).read()
+                name = path.split('::')[-1]
+                if re.search(r'(?m)^\s*(pub(\([a-z]+\))?\s+)?const\s+%s\b' % re.escape(name), txt):
+                    auto_items[(fname, path)] = ('item', 'const ' + name, ['#[verus_verify]'])
+                    new_items = True
+                elif re.search(r'\bfn\s+%s\b' % re.escape(name), txt):
+                    auto_items[(fname, path)] = ('fn', path, ['#[verus_verify]'])
+                    new_items = True
+            if not new_items:
+                break
+            extra = {}
+            for (fname, path), blk in auto_items.items():
+                extra.setdefault(fname, []).append(blk)
+            try:
+                info = weave.weave_all(os.path.join(REPO, 'src'), os.path.join(VERIF, 'contracts'), os.path.join(VERIF, 'spec'), woven, extra_blocks=extra)
+            except AnchorError as ex:
+                break
+            uni = Universe(info)
+            vr = run_verus(woven, tier, scratch)
+            ana = analyse(info, uni, vr)
         trusted, counts = scan_trusted(woven)
         known = load_known_findings()
+        canary = None
+        if tier == 'thorough' and not ana['compile_error']:
+            try:
+                canary = canary_pass(scratch, uni)
+            except AnchorError as ex:
+                ana['inconclusive'].append('canary pass: anchor lost: %s' % ex)
+            if canary and canary[1]:
+                for c in canary[1]:
+                    ana['inconclusive'].append('VACUITY: assert(false) verified in %s -- its precondition / invariant is contradictory' % c)
         if a.show:
             for d in vr['diags']:
                 if d['level'] == 'error':
@@ -478,9 +572,11 @@ def main():
                     'samples': [{'obligation': k, 'function': v['fn'], 'clause': v['text']} for k, v in sorted(obl.items())][:40],
                     'all_obligation_ids': sorted(obl),
                     'known_findings_hit': sorted(known_hit),
+                    'auto_included_helper_items': sorted('%s:%s' % k for k in auto_items),
                     'assumed_contract_clauses': [{'clause': k, 'function': v['fn'], 'text': v['text']} for k, v in sorted(uni.assumed.items()) if pid in v['props']],
                     'inconclusive': inconclusive[:10],
                     'verus_wall_s': round(vr['wall'], 2),
+                    'vacuity_canaries': ({'inserted': canary[0], 'verified_false': canary[1]} if canary else 'thorough tier only'),
                 },
                 'assumptions': [
                     'soundness of Verus 0.2026.09.13 and Z3; --no-trait-conflicts',
